@@ -69,6 +69,106 @@ let kind_name = function
   | KStructuredPreExisting -> "StructuredPreExisting"
   | KStructuredNew -> "StructuredNew"
 
+(* bytes of a file as the model sees them *)
+let bytes_of_string (s : string) : n list =
+  List.map (fun c -> n_of_int (Char.code c)) (List.of_seq (String.to_seq s))
+let string_of_bytes (b : n list) : string =
+  String.of_seq (List.to_seq (List.map (fun x -> Char.chr (int_of_n x)) b))
+
+let rec nat_of_int (i : int) : nat = if i <= 0 then O else S (nat_of_int (i - 1))
+let rec int_of_nat (x : nat) : int = match x with O -> 0 | S y -> 1 + int_of_nat y
+
+let opt_nat (s : string) : nat option = if s = "-" then None else Some (nat_of_int (int_of_string s))
+let int_set (s : string) : int list =
+  if s = "" || s = "-" then [] else List.map int_of_string (String.split_on_char ',' s)
+
+let eff_str (e : eff) : string =
+  match e with
+  | ECreateTmp f -> Printf.sprintf "C%d" (int_of_nat f)
+  | EWriteTmp (f, bs) -> Printf.sprintf "W%d:%d" (int_of_nat f) (List.length bs)
+  | ERename f -> Printf.sprintf "R%d" (int_of_nat f)
+  | EUnlinkTmp f -> Printf.sprintf "U%d" (int_of_nat f)
+  | ELockTrunc -> "LT"
+  | ELockWrite n -> Printf.sprintf "LW%d" (int_of_n n)
+
+let lock_str (l : lockst) : string =
+  match l with LAbsent -> "A" | LCorrupt -> "C" | LValid n -> Printf.sprintf "V%d" (int_of_n n)
+
+(* run <mode> <structured> <use_cache> <macros> <lock> <stop1> <stop2> <rfail1> <rfail2> <faults>
+       <lockfault> <crash> <disc> <files...>
+   faults: i:C | i:R | i:W<k>, comma separated;  crash: - | k | k:<hex partial>;  disc: ok|err *)
+let run_cmd (f : string array) : string =
+  let mode = f.(1) in
+  let cfg = { cfg_structured = (f.(2) = "1"); cfg_macros = parse_macros f.(4) } in
+  let rc = { rc_cfg = cfg; rc_use_cache = (f.(3) = "1") } in
+  let lk =
+    if f.(5) = "A" then LAbsent else if f.(5) = "C" then LCorrupt
+    else LValid (n_of_int (int_of_string (String.sub f.(5) 1 (String.length f.(5) - 1)))) in
+  let rf1 = int_set f.(8) and rf2 = int_set f.(9) in
+  let faults =
+    if f.(10) = "" || f.(10) = "-" then []
+    else
+      List.map
+        (fun s ->
+          match String.split_on_char ':' s with
+          | [ i; k ] ->
+              ( int_of_string i,
+                if k = "C" then FCreate else if k = "R" then FRename
+                else FWrite (nat_of_int (int_of_string (String.sub k 1 (String.length k - 1)))) )
+          | _ -> failwith "fault")
+        (String.split_on_char ',' f.(10)) in
+  let o =
+    { o_stop1 = opt_nat f.(6); o_stop2 = opt_nat f.(7);
+      o_rfail1 = (fun i -> List.mem (int_of_nat i) rf1);
+      o_rfail2 = (fun i -> List.mem (int_of_nat i) rf2);
+      o_fault = (fun i -> match List.assoc_opt (int_of_nat i) faults with Some x -> x | None -> FNone);
+      o_lock_fault = (if f.(11) = "open" then LkOpenFails else if f.(11) = "write" then LkWriteFails else LkOk) } in
+  let files = ref [] in
+  for i = 14 to Array.length f - 1 do
+    if f.(i) <> "" then files := bytes_of_string (unhex f.(i)) :: !files
+  done;
+  let files = List.rev !files in
+  let disc = if f.(13) = "err" then None else Some files in
+  let out =
+    if mode = "check" then run_check find rc disc o
+    else run_edit the_params find c_START_REFERENCE_ID rc disc lk o in
+  let w0 = { w_src = files; w_tmp = []; w_lock = lk } in
+  let wf = apply_effs w0 out.ro_effs in
+  let b = Buffer.create 1024 in
+  Buffer.add_string b
+    (Printf.sprintf "run exit=%s total=%s"
+       (match out.ro_exit with XOk -> "OK" | XErr -> "ERR" | XPanic -> "PANIC" | XHang -> "HANG")
+       (match out.ro_total with None -> "none" | Some t -> string_of_int (int_of_n t)));
+  Buffer.add_string b " ids=";
+  Buffer.add_string b
+    (String.concat ";"
+       (List.map
+          (fun ((fi, pos), id) -> Printf.sprintf "%d:%d:%d" (int_of_nat fi) (int_of_n pos) (int_of_n id))
+          out.ro_ids));
+  Buffer.add_string b " reports=";
+  Buffer.add_string b
+    (String.concat ";"
+       (List.map
+          (fun r ->
+            match r with
+            | RMissing (fi, l, c) -> Printf.sprintf "M:%d:%d:%d" (int_of_nat fi) (int_of_n l) (int_of_n c)
+            | RUnusable (fi, l, c) -> Printf.sprintf "U:%d:%d:%d" (int_of_nat fi) (int_of_n l) (int_of_n c))
+          out.ro_reports));
+  Buffer.add_string b (" effs=" ^ String.concat "," (List.map eff_str out.ro_effs));
+  Buffer.add_string b (" lock=" ^ lock_str wf.w_lock);
+  Buffer.add_string b (Printf.sprintf " tmp=%d" (List.length wf.w_tmp));
+  Buffer.add_string b (" src=" ^ String.concat "," (List.map (fun x -> hex (string_of_bytes x)) wf.w_src));
+  (if f.(12) <> "-" then
+     let k, partial =
+       match String.split_on_char ':' f.(12) with
+       | [ k ] -> (int_of_string k, None)
+       | [ k; p ] -> (int_of_string k, Some (bytes_of_string (unhex p)))
+       | _ -> failwith "crash" in
+     let wk = crash_world w0 out.ro_effs (nat_of_int k) partial in
+     Buffer.add_string b (" clock=" ^ lock_str wk.w_lock);
+     Buffer.add_string b (" csrc=" ^ String.concat "," (List.map (fun x -> hex (string_of_bytes x)) wk.w_src)));
+  Buffer.contents b
+
 let handle (line : string) : string =
   let f = Array.of_list (String.split_on_char '\t' line) in
   match f.(0) with
@@ -119,6 +219,7 @@ let handle (line : string) : string =
       match line_col (decode (unhex f.(2))) pos with
       | None -> "linecol none"
       | Some (l, c) -> Printf.sprintf "linecol %d %d" (int_of_n l) (int_of_n c))
+  | "run" -> run_cmd f
   | _ -> "ERR unknown command"
 
 let () =
